@@ -35,6 +35,10 @@ def _quiet_twisted():
         pass
 
 
+def _discs(r):
+    return r[0] if isinstance(r, tuple) else r
+
+
 class Collector:
     def __init__(self, sub):
         self.sub = sub
@@ -43,6 +47,7 @@ class Collector:
         self.labels = collections.Counter()
         self.discs = {}
         self.samples = []
+        self.inner = 0
 
     def record(self, case):
         self.evals += 1
@@ -57,6 +62,9 @@ class Collector:
                 if len(s) < 1500:
                     self.samples.append(case)
         discs = self.sub.run(case)
+        if isinstance(discs, tuple):      # (discrepancies, number of inner executions)
+            discs, inner = discs
+            self.inner += inner
         size = None
         for d in discs:
             if size is None:
@@ -72,7 +80,7 @@ class Collector:
 
     def result(self):
         return {'evals': self.evals, 'hashes': self.hashes, 'labels': dict(self.labels),
-                'discs': self.discs, 'samples': self.samples}
+                'discs': self.discs, 'samples': self.samples, 'inner': self.inner}
 
 
 def _shard(args):
@@ -125,7 +133,7 @@ def _shrink(mod, sub, key, tier, seed, budget=400):
                   suppress_health_check=list(HealthCheck))
         @given(sub.strategy(tier))
         def t(case):
-            for d in sub.run(case):
+            for d in _discs(sub.run(case)):
                 if d.key == key:
                     last['case'] = case
                     last['detail'] = d.detail
@@ -162,7 +170,7 @@ def run_property(prop, tier, seed):
                 continue
             rp = core.read_replay(os.path.join(rdir, fn))
             n_regress += 1
-            for d in subs[rp['subcheck']].run(rp['case']):
+            for d in _discs(subs[rp['subcheck']].run(rp['case'])):
                 if d.key in open_keys:
                     known_hits[d.key] += 1
                 else:
@@ -173,7 +181,7 @@ def run_property(prop, tier, seed):
         if f.status != 'open':
             continue
         rp = core.read_replay(os.path.join(core.VERIF_DIR, f.probe))
-        keys = [d.key for d in subs[rp['subcheck']].run(rp['case'])]
+        keys = [d.key for d in _discs(subs[rp['subcheck']].run(rp['case']))]
         if f.key in keys:
             lines.append('KNOWN-FINDING: property=%s %s' % (prop, f.text))
         else:
@@ -190,7 +198,7 @@ def run_property(prop, tier, seed):
             tasks.append((prop, s.name, tier, seed, sh, ns))
     nproc = min(16, len(tasks)) or 1
     merged = {s.name: {'evals': 0, 'hashes': set(), 'labels': collections.Counter(),
-                       'discs': {}, 'samples': []} for s in mod.SUBCHECKS}
+                       'discs': {}, 'samples': [], 'inner': 0} for s in mod.SUBCHECKS}
     if nproc == 1 or os.environ.get('VERIF_SERIAL'):
         results = [_shard(t) for t in tasks]
     else:
@@ -203,6 +211,7 @@ def run_property(prop, tier, seed):
             return 2
         m = merged[task[1]]
         m['evals'] += res['evals']
+        m['inner'] += res.get('inner', 0)
         m['hashes'] |= res['hashes']
         m['labels'].update(res['labels'])
         for s in res['samples']:
@@ -264,6 +273,7 @@ def run_property(prop, tier, seed):
         'rule': mod.RULE,
         'samples': samples,
         'per_subcheck': {name: {'evaluations': m['evals'], 'distinct_nontrivial': len(m['hashes']),
+                                'inner_executions': m['inner'],
                                 'labels': dict(sorted(m['labels'].items()))}
                          for name, m in merged.items()},
         'exhaustive_subspaces': exhaustive,
@@ -283,6 +293,7 @@ def run_property(prop, tier, seed):
             json.dump(ev, f, indent=1, sort_keys=True, default=str)
     for ln in lines:
         print(ln)
+    inner_total = sum(m['inner'] for m in merged.values())
     print('%s %s seed=%d: %d cases, %d distinct non-trivial, %d violation key(s), %.1fs' % (
         prop, tier, seed, evals, len(hashes), nviol, time.time() - t0))
     for name, m in merged.items():
@@ -295,7 +306,7 @@ def replay(path):
     mod = _load(rp['property'])
     _quiet_twisted()
     sub = {s.name: s for s in mod.SUBCHECKS}[rp['subcheck']]
-    discs = sub.run(rp['case'])
+    discs = _discs(sub.run(rp['case']))
     for d in discs:
         print('DISCREPANCY key=%s\n  %s' % (d.key, d.detail.replace('\n', '\n  ')))
     if discs:
